@@ -302,6 +302,9 @@ def plan(pid, tr, sd):
         elif pid == "C09":
             for k, where in enumerate(("same", "other", "context")):
                 jobs.append((pid, "c09", label, t, gens[0], dict(pls[(i + k) % 2], copy_to=where)))
+                jobs.append((pid, "c09", label, t, gens[0], dict(pls[(i + k + 1) % 2], copy_to=where, src="view")))
+                if t[0] in ("struct", "array") and has_kind(t, ("struct", "array")):
+                    jobs.append((pid, "c09n", label, t, gens[0], dict(pls[(i + k) % 2], copy_to=where)))
             if tr == "thorough":
                 jobs.append((pid, "c09", label, t, gens_more[3], dict(pls[0], copy_to="other")))
                 jobs.append((pid, "c09", label, t, gens_more[2], dict(pls[1], copy_to="same")))
@@ -314,6 +317,8 @@ def plan(pid, tr, sd):
             ]
             if tr == "thorough":
                 hs += [[("set", k, "view"), ("setc", k, "handle"), ("grow",), ("set", k + 1, "handle")] for k in range(3)]
+            if has_kind(t, ("array",)):
+                hs.append([("seta", 0, "handle"), ("seta", 1, "view"), ("grow",), ("seta", 2, "handle")])
             hs.append([("setr", 0, "handle"), ("set", 0, "view"), ("setr", 1, "view")])
             hs.append([("setx", 0, "handle"), ("grow",), ("setx", 1, "view")])
             hs.append([("setx", 2, "view"), ("setr", 2, "handle")])
